@@ -250,6 +250,19 @@ theorem rloopLoop_good (run : St → Res) (hrun : ∀ s, Good s (run s)) (ls : R
         have k := kN st rfl
         exact ih _ _ (by rw [k.1]; exact k.2) hf
 
+theorem elseSeq_good : ∀ (runs : List (St → Res)), (∀ r ∈ runs, ∀ s, Good s (r s)) → ∀ s, Good s (elseSeq runs s)
+  | [], _, s => by unfold elseSeq; exact good_of_same_writer rfl
+  | r :: rest, h, s => by
+    unfold elseSeq
+    have g := h r (List.mem_cons_self) s
+    cases hx : (r s).err with
+    | some e => simp only; exact g
+    | none =>
+      simp only
+      intro hs hf
+      have nf : (r s).st.w.failed = false := g.notfailed hs (by rw [hx]; simp)
+      exact elseSeq_good rest (fun r' hr' => h r' (List.mem_cons_of_mem _ hr')) _ nf hf
+
 theorem elseRun_goodL (run : St → Res) (hrun : ∀ s, Good s (run s)) (ne : Bool) (s : St) :
     GoodL s (elseRun run ne s) := by
   intro hs hf
